@@ -5,6 +5,7 @@ cd /repo || exit 2
 if [ -n "$(git status --porcelain)" ]; then echo "/repo not clean"; exit 2; fi
 for s in "$@"; do git apply /verif/seeded/$s/patch.diff || { echo "$s: patch does not apply"; git checkout -- .; exit 2; }; done
 cd /verif
+before=$(ls /verif/replays/C*-*.json 2>/dev/null)
 for s in "$@"; do
   prop=${s%%-*}
   out=$(./check $prop --tier ${TIER:-quick} 2>&1); code=$?
@@ -12,4 +13,4 @@ for s in "$@"; do
   if [ $code -eq 1 ]; then echo "== $s: DETECTED (exit 1)"; elif [ $code -eq 0 ]; then echo "== $s: MISSED (exit 0)"; else echo "== $s: MACHINERY exit $code"; echo "$out" | tail -5; fi
 done
 git -C /repo checkout -- .
-rm -f /verif/replays/C*-*.json
+for f in /verif/replays/C*-*.json; do case "$before" in *"$f"*) ;; *) rm -f "$f";; esac; done
